@@ -60,7 +60,7 @@ def field_opcodes(U):
 @unit("C14", covers=[(ANA, "Analysis._create_xref"), (ANA, "Analysis.get_field_analysis"), (ANA, "Analysis.get_fields"),
                      (ANA, "ClassAnalysis.get_field_analysis")], params=S.PARAMS, level="bounded", note=S.NOTE)
 def recorded_on_the_field(U, chunk):
-    g = U.given or {"split": 0, "order": 0, "a": 24, "b": 0}
+    g = U.given or {"split": 0, "order": 0, "a": 30, "b": 0}
     U.drawn.update(g)
     o = U.call(S.build, U, g)
     U.ensures("analysis does not raise", o.ok, exc=repr(o.exc), **g)
